@@ -31,7 +31,8 @@ CHROMS = ["chr1", "chr2", "chr3", "chr10", "chrX", "chrY"]
 @st.composite
 def seg_table(draw, allelic):
     nchrom = draw(st.integers(1, 6))
-    chroms = CHROMS[:nchrom]
+    style = draw(st.sampled_from(["chr", "chr", ""]))  # chr1..chrY or 1..Y
+    chroms = [style + c[3:] for c in CHROMS[:nchrom]]
     rows = []
     palette = [-1.0, -0.4, 0.0, 0.0, 0.3, 0.58, 1.3]
     for c in chroms:
